@@ -441,3 +441,34 @@ theorem regexp_print_old_agrees (r : Rx) (h : r.original ≠ "") : Rx.print r = 
 example : Rx.load (fun _ => true) (Rx.print ⟨true, ""⟩) = some ⟨true, ""⟩ := by decide
 
 end AM.Config
+
+namespace AM.Config
+
+/-- F14 repaired: whatever the decoded list holds, the loaded receiver can be built (no entry is left `null`) -/
+theorem apply_total_after_load (dflt : Nat) (es : List Entry) : ∃ l, build (fillNulls dflt es) = some l := by
+  induction es with
+  | nil => exact ⟨[], rfl⟩
+  | cons e es ih =>
+    obtain ⟨l, hl⟩ := ih
+    refine ⟨e.getD dflt :: l, ?_⟩
+    simp only [build, fillNulls, List.map_cons, List.mapM_cons] at hl ⊢
+    simp [hl]
+
+/-- … and entries that were given are kept as they are -/
+theorem fillNulls_keeps_given (dflt : Nat) (es : List Entry) (h : ∀ e ∈ es, e ≠ none) : fillNulls dflt es = es := by
+  induction es with
+  | nil => rfl
+  | cons e es ih =>
+    have he : e ≠ none := h e (by simp)
+    have := ih (fun x hx => h x (by simp [hx]))
+    cases e with
+    | none => exact absurd rfl he
+    | some v => simp only [fillNulls, List.map_cons, Option.getD_some] at this ⊢; rw [this]
+
+/-- the pinned loader: a `null` entry survives loading and building the receiver dereferences it -/
+theorem null_entry_kills_apply_old (dflt : Nat) : build (fillNullsOld dflt [none]) = none := by
+  simp [build, fillNullsOld]
+
+example : build (fillNulls 7 [none, some 3]) = some [7, 3] := by decide
+
+end AM.Config
